@@ -575,6 +575,12 @@ func filestat(h FileLister, r *Request, pkt requestPacket) responsePacket {
 	n, err := lister.ListAt(finfo, 0)
 	finfo = finfo[:n] // avoid need for nil tests below
 
+	// The lister was obtained for this one lookup only: release it,
+	// as documented for every ListerAt that is also an io.Closer.
+	if c, ok := lister.(io.Closer); ok {
+		c.Close()
+	}
+
 	switch r.Method {
 	case "Stat", "Lstat":
 		if err != nil && err != io.EOF {
